@@ -7,6 +7,7 @@ import WD.Proofs.Pipeline.Theorems
 import WD.Proofs.Pipeline.FlatSpec
 import WD.Proofs.Pipeline.BurstFiles
 import WD.Proofs.Pipeline.BurstGrow
+import WD.Proofs.Pipeline.Paced
 /-
   `_partial`: the theorems quantify over all initial trees and all histories of valid operations, but in the
   regime "the stream drains after every operation" (`Sys.op`), plus bursts of FILE operations issued back to back and
@@ -169,5 +170,14 @@ theorem coverage_after_growth_burst_partial (fs0 : FS) (hwf : fs0.WF) (full : Bo
   intro w hw
   obtain ⟨e, he, h1, h2, _⟩ := h4.good w hw
   exact ⟨e, he, h1, h2⟩
+
+
+/-- coverage over PACED histories: any sequence of bursts, each read as one batch - single operations of any kind, bursts
+    of file operations, nested creation bursts: after every such history every directory of the tree is watched under
+    its real current path -/
+theorem coverage_paced_partial (fs0 : FS) (hwf : fs0.WF) (full : Bool) (bs : List (List Op))
+    (hb : pacedOK (Sys.start fs0 true full) bs) : Covered ((Sys.start fs0 true full).runBursts bs).1 := by
+  obtain ⟨inv, hs, hc, _, _⟩ := start_rec fs0 hwf full
+  exact covered_of_inv (paced_run bs _ inv hs hc hb).1 _ rfl rfl rfl
 
 end WD.C02
